@@ -155,12 +155,16 @@ def gen_docs(rng, space, n, first=True):
             docs.append(G.adversarial(rng))
         if first:      # on top of the n documents: numeric attribute x number spelling, exhaustively (small documents)
             docs.extend(G.numeric_sweep())
+            docs.extend(G.captioned_table_sweep())      # caption richness x trigger of every table pass
+            docs.extend(G.refname_sweep())              # footnote name x spelling, definition / empty use, both orders
     elif space == 3:
         while len(docs) < n:
             docs.append(G.deep(rng))
     else:
         while len(docs) < n:
             docs.append(G.wellformed(rng, named_refs=(rng.random() < 0.25)))
+        if first:      # on top: one article linked twice, label x label x place (small documents)
+            docs.extend(G.reflink_sweep())
     return docs
 
 
